@@ -77,9 +77,9 @@ class Container:
                 self._backend.get_by_id(item)
                 return True
             except KeyError:
-                return False
-        else:
-            return item in self._backend
+                # no entity with that id: a name may look like an id
+                pass
+        return item in self._backend
 
     def __str__(self):
         return "[{}]".format(
